@@ -6,7 +6,9 @@ Model of the privacy decision of pydoctor:
   first (`qnmatch` may raise), cache store.
 * `Documentable.privacyClass`, `Module.privacyClass` (the `__main__` special case),
   `Documentable.isVisible` (own class, then the parent chain), `Documentable.isPrivate`.
-* `utils.parse_privacy_tuple` on ASCII input.
+* `utils.parse_privacy_tuple` on ASCII input (with the validation of the pattern added by
+  "fix: reject a --privacy pattern that does not translate to a valid regular expression") and
+  `options._convert_privacy`.
 
 `options.privacy` is a `List Rule` in command-line order; the cache is Python's dict
 (`List (key × value)`, insertion order, keys unique).
@@ -185,10 +187,50 @@ def levelOfName (s : List Char) : Option Level :=
   else if s = ['V', 'I', 'S', 'I', 'B', 'L', 'E'] then some .pub
   else none
 
-/-- `parse_privacy_tuple(value, opt)`; `none` = `error(…)` → `SystemExit` -/
-def parseRule (value : List Char) : Option Rule :=
+inductive Parsed (α : Type) where
+  | ok (a : α)
+  /-- `utils.error(…)`: message on stderr, `sys.exit(1)` -/
+  | systemExit
+  /-- an `IndexError` of `qnmatch.translate` would pass the `except re.error` clause -/
+  | indexError
+  deriving DecidableEq, Repr
+
+/-- `parse_privacy_tuple(value, opt)`:
+```
+parts = value.split(':')
+if len(parts) != 2: error(…)
+try: priv = model.PrivacyClass[parts[0].strip().upper()]
+except: error(…)
+else:
+    pattern = parts[1].strip()
+    try: re.compile(qnmatch.translate(pattern))
+    except re.error as e: error(…)
+    return (priv, pattern)
+``` -/
+def parseRule (value : List Char) : Parsed Rule :=
   match splitColon value with
-  | [a, b] => (levelOfName (upper (strip a))).map fun l => ⟨l, strip b⟩
-  | _ => none
+  | [a, b] =>
+    match levelOfName (upper (strip a)) with
+    | none => .systemExit
+    | some l =>
+      let pattern := strip b
+      match Glob.translate pattern with
+      | none => .indexError
+      | some as => if Regex.compiles as then .ok ⟨l, pattern⟩ else .systemExit
+  | _ => .systemExit
+
+/-- `options._convert_privacy`: `list(map(parse_privacy_tuple, l))`, in command-line order; the
+first value that is refused ends the process -/
+def parseRules : List (List Char) → Parsed (List Rule)
+  | [] => .ok []
+  | v :: vs =>
+    match parseRule v with
+    | .ok r =>
+      match parseRules vs with
+      | .ok rs => .ok (r :: rs)
+      | .systemExit => .systemExit
+      | .indexError => .indexError
+    | .systemExit => .systemExit
+    | .indexError => .indexError
 
 end Privacy
